@@ -103,20 +103,28 @@ Definition spec_outcome (inv : invocation) (g : bool) : outcome :=
          (if g then spec_ticks (i_fields inv) else []).
 
 (** With the cargo feature `log`, the DISABLED branch of a macro hands its fields to the `log` crate (documented
-    behaviour, property C18): the expressions are then evaluated although no collector sees them.  This happens
-    exactly when: the level passes log's compile-time cap, no dispatcher has ever been set in the process (unless
-    `log-always`), and - for events only - the level passes `log::max_level()` and the logger wants the record. *)
-Definition spec_log_formats (ls : logstate) (k : mkind) : bool :=
-  let wants := match k with MEvent => l_max_level_ok ls && l_logger_enabled ls | MSpan => true end in
+    behaviour, property C18): the expressions are then evaluated although no collector sees them.  The `log` side is
+    one more filtering stage: the expressions may be evaluated only when the log record is ACTUALLY BUILT, i.e. the
+    level passes log's compile-time cap, no dispatcher has ever been set in the process (unless `log-always`), the
+    level passes `log::max_level()` and the logger's `enabled` wants the record. *)
+Definition log_reached (ls : logstate) : bool :=
   match l_mode ls with
   | LogOff => false
-  | LogOn => l_static_ok ls && negb (l_dispatch_ever ls) && wants
-  | LogAlways => l_static_ok ls && wants
+  | LogOn => l_static_ok ls && negb (l_dispatch_ever ls)
+  | LogAlways => l_static_ok ls
   end.
+Definition spec_log_formats (ls : logstate) : bool :=
+  log_reached ls && l_max_level_ok ls && l_logger_enabled ls.
+(** Known finding F101: a disabled SPAN builds its value set (`span.record_all(&valueset!(..))` inside
+    `if_log_enabled!`) BEFORE `Span::log` tests `log::max_level()` / `Log::enabled`: its field expressions are evaluated
+    although the log record is filtered out too.  (Events make both tests before touching the value set.) *)
+Definition known_F101 (ls : logstate) (k : mkind) (g : bool) : bool :=
+  negb g && (match k with MSpan => true | MEvent => false end) && log_reached ls
+  && negb (l_max_level_ok ls && l_logger_enabled ls).
 Definition spec_outcome_log (ls : logstate) (inv : invocation) (g : bool) : outcome :=
   mk_out (spec_names (i_fields inv))
          (if g then Some (spec_visits (i_fields inv)) else None)
-         (if g then spec_ticks (i_fields inv) else if spec_log_formats ls (i_kind inv) then spec_ticks (i_fields inv) else []).
+         (if g then spec_ticks (i_fields inv) else if spec_log_formats ls then spec_ticks (i_fields inv) else []).
 
 (** The modelled form grammar: a known prefix set, the brace form only on events, plain values of `Value` types. *)
 Definition valid_prefix (k : mkind) (p : string) : bool :=
